@@ -172,6 +172,10 @@ func (m *Variant) Decode(b []byte) (int, error) {
 		if m.arrayDimensionsLength < 0 {
 			return buf.Pos(), StatusBadEncodingLimitsExceeded
 		}
+		// every dimension takes four bytes of input
+		if int(m.arrayDimensionsLength) > buf.Len()/4 {
+			return buf.Pos(), StatusBadEncodingLimitsExceeded
+		}
 		m.arrayDimensions = make([]int32, m.arrayDimensionsLength)
 		for i := 0; i < int(m.arrayDimensionsLength); i++ {
 			m.arrayDimensions[i] = buf.ReadInt32()
